@@ -230,6 +230,43 @@ CHECKS = {
         ref='3 C12'),
 }
 
+# clauses added in the fourth round of strengthening (appended to the level text of the property)
+EXTRA = {
+    'C01': ' Also: operators in force end with the subset (register lifecycle fold, shared with C06.R1); the data section is read in the mode the header declares whatever '
+           'the subset count; read_uint_or_none is folded for every width an 8-bit operand can give (0..255).',
+    'C02': ' Also: the encoder keeps nothing from one message to the next; the data section is written in the layout the header declares whatever the subset count.',
+    'C03': ' Also: marker values are written with the coding the bitmap of the subset being written designates; an encoder that compiles templates keys them by '
+           'descriptor list and table group.',
+    'C04': ' Also: a section whose last parameter takes the rest of the section, declared shorter than its fixed part, is refused with the library error (the reader '
+           'model refuses negative widths as bitstring does).',
+    'C05': ' Also: all-equal columns of NUL strings.',
+    'C06': ' Also: process_template_data folded on three uncompressed subsets with the real state (what reaches TemplateData are the state\'s own per-subset records, '
+           'distinct objects each with its own entries, for templates with and without delayed replication or markers); every renderer shows subset k from the records of '
+           'subset k.',
+    'C07': ' Also: chains of bitmap operators folded call by call (237000 recalls the bitmap defined for reuse also after a later bitmap that is not for reuse; nothing to '
+           'recall after 237255); the hierarchical views show every attribute under its owner (element or replication factor); two coder states of one process share no '
+           'mutable register object.',
+    'C08': ' Also: the same Table D sequence met before, under and after each operator regime, inside and outside replications and around bitmaps; markers after 203000 and '
+           'while 203 values are in force; thorough tier: the differential with every distinct sequence of every bundled Table D as the template (1330 structures).',
+    'C09': ' Also: the hierarchical views show every attribute under its owner; every renderer shows subset k from the records of subset k (three differently shaped '
+           'subsets); renderers keep no state.',
+    'C10': ' Also: the subset command builds decoder and encoder with the same tables and section layouts.',
+    'C11': ' Also: a message of data category 11 in a layout other than a table definition is yielded like any other; the decoder keeps nothing from one message to the next.',
+    'C12': ' Also: the stream commands (decode -m, info -m, split) folded with a lazy scripted scanner deliver every message before asking for the next one; '
+           'Decoder.process_unexpanded_descriptors folded on concrete descriptor lists keeps every entry (000000 included); the raise/assert discipline reaches the '
+           'table-definition processor; exception constructors of the repository are folded when an error is raised.',
+    'C13': ' Also: a wire() that fails leaves the data unwired.',
+    'C14': ' Also: forward references between Table D sequences at every nesting position; the descriptor list of section 3 reaches the template entry by entry; the NCEP '
+           'repair leaves well-formed sequences as they are; an undefined descriptor is refused at every template position.',
+    'C16': ' Also: a replication whose repetitions carry different descriptors (marker values) is matched repetition by repetition; parser and querent keep nothing between '
+           'queries.',
+    'C17': ' Also: no code reachable from the decoder assigns to the value of a named section parameter after it was read.',
+    'C19': ' Also: the generic dispatchers read(type, n) / write(value, type, n) are the typed methods, for every typed method the reader and writer have.',
+    'C20': ' Also: definitions of a message that a filter keeps from being yielded are registered all the same; no process-wide store other than the table-group cache can '
+           'keep objects built from the old definitions; templates compiled before a definition message are not used after it; the NCEP repair keeps complete '
+           'replications inside their sequence.',
+}
+
 NOT_APPLICABLE = {
     'C16': 'quantifies over runtime trees and values (query result == evaluation over the nested rendering of each message); '
            'no clause of it is visible in the shape of the code beyond what C09 already checks - a static proxy would be a '
@@ -251,7 +288,7 @@ def main():
                 'evidence_file': '/verif/evidence/%s.json' % p,
                 'replay_cmd_template': '%s /verif/sa/run.py %s --replay {path}' % (PY, p),
                 'engine': 'sa',
-                'level_claimed': {'category': c['level'], 'text': c['text'], 'design_ref': 'DESIGN.md section ' + c['ref']},
+                'level_claimed': {'category': c['level'], 'text': c['text'] + EXTRA.get(p, ''), 'design_ref': 'DESIGN.md section ' + c['ref']},
                 'level_note': c['note'],
                 'technique': c['technique'],
             })
